@@ -80,6 +80,24 @@ OPAQUE = {
         "attrs": {},
         "methods": {"time": ([], "Frac1000", "loop_time_ms")},
     },
+    "LMsg": {
+        # a parsed query datagram as the listener looks at it: what `DNSIncoming` parsed (`MsgInfo`) and the packet kept for the
+        # query handler (`Packet`: `data`, `now`)
+        "lean": "(Zc.Listener.MsgInfo × Zc.Listener.Packet)",
+        "always_truthy": True,
+        "immutable": True,
+        "attrs": {"truncated": ("Bool", "{0}.1.truncated"), "data": ("Bytes", "{0}.2.data")},
+    },
+    "TcHandle": {
+        # the `asyncio.TimerHandle` of a deferred truncated query: its due time (ms of loop time) and the captured port
+        "lean": "Zc.Listener.TcTimer",
+        "immutable": True,
+        "always_truthy": True,
+        "attrs": {},
+    },
+    "QhHandle": {"lean": "Unit", "immutable": True, "always_truthy": True, "attrs": {}},
+    "TransportHandle": {"lean": "Unit", "immutable": True, "always_truthy": True, "attrs": {}},
+    "FlowScope": {"lean": "Unit", "immutable": True, "attrs": {}},
     "CacheHandle": {
         # the `DNSCache` as `_QueryResponse` holds it: only handed to `_get_unique_ignoring_scope`, an environment function there
         "lean": "Unit",
